@@ -271,6 +271,7 @@ fn sort_numbers(v: &mut Vec<u64>)
         old(v)@.no_duplicates() ==> final(v)@.no_duplicates(),
 { unimplemented!() }
 fn max_u64(a: u64, b: u64) -> (r: u64) ensures r >= a, r >= b, r == a || r == b { if a >= b { a } else { b } }
+fn min_u64(a: u64, b: u64) -> (r: u64) ensures r <= a, r <= b, r == a || r == b { if a <= b { a } else { b } }
 struct Reopen { w: Tracked<DirWorld> }
 impl Reopen {
     #[verifier::external_body]
@@ -297,6 +298,7 @@ impl Reopen {
 //@ rewrite-re X13 `for number in numbers\.into_iter\(\) \{` => `for ni in 0..numbers.len() { let number = numbers[ni];`
 //@ rewrite-re X7 `Self::recover_one\(options, number, mani\)` => `self.recover_one(options, number)`
 //@ rewrite-re? X7 `std::cmp::max\(` => `max_u64(`
+//@ rewrite-re? X7 `std::cmp::min\(` => `min_u64(`
 //@ rewrite-re? X4 `let mut numbers = vec!\[\];` => `let mut numbers: Vec<u64> = Vec::new();`
 //@ rewrite-re? X4 `let mut seq_no = 0;` => `let mut seq_no: u64 = 0;`
 //@ post <<
@@ -452,6 +454,6 @@ proof fn lemma_lists_step(l: Seq<Result<DirEntryName, SError>>, ei: int, before:
     }
 }
 
-//@ min-verified 6
+//@ min-verified 7
 } // verus!
 fn main() {}
